@@ -6,6 +6,7 @@ import GitSizer.Driver.Refs
 import GitSizer.Driver.Graph
 import GitSizer.Driver.Output
 import GitSizer.Driver.Meter
+import GitSizer.Driver.E2E
 /-! `gsmodel`: reads case lines (engine TAB id TAB input… TAB => TAB observed…) on stdin and
     prints one verdict line per case: id TAB verdict… -/
 open GitSizer.Driver
@@ -21,6 +22,7 @@ def engineOf (name : String) : Option Engine :=
   | "graph" => some graphEngine
   | "output" => some outputEngine
   | "meter" => some meterEngine
+  | "e2e" => some e2eEngine
   | _ => none
 
 def splitCase (fields : List String) : List String × List String :=
